@@ -408,6 +408,42 @@ func c04(w *core.World, r *core.Report) {
 		}
 	}
 
+	// ---- NOT-ONLY-TOUCHED
+	r.Rule("NOT-ONLY-TOUCHED", 0, "what a validator judges does not depend on whether the transaction touched the value: no validate* method of sharedEntryAttributes (with the helpers that are part of it) reads the New / Updated marks of a leaf entry (LeafEntry.GetNewFlag / GetUpdateFlag, the fields IsNew / IsUpdated). A value that was stored while it was shadowed was never judged as the ruling value; it becomes one when the intent above it is removed, and is neither new nor updated then.")
+	{
+		n := 0
+		for _, f := range w.RepoFns {
+			if f.Signature == nil || f.Signature.Recv() == nil || f.Parent() != nil || core.IsInlined(f) {
+				continue
+			}
+			if core.TypeKey(f.Signature.Recv().Type()) != "tree.sharedEntryAttributes" || !strings.HasPrefix(f.Name(), "validate") {
+				continue
+			}
+			n++
+			bad := ""
+			var pos ssa.Instruction
+			for _, c := range core.Calls(f) {
+				if core.CalleeIs(c, "tree.LeafEntry.GetNewFlag", "tree.LeafEntry.GetUpdateFlag") {
+					bad, pos = core.CalleeKey(c), c
+				}
+			}
+			for _, b := range core.Blocks(f) {
+				for _, in := range b.Instrs {
+					if v, ok := in.(ssa.Value); ok {
+						if fk := core.FieldOf(v); fk == "tree.LeafEntry.IsNew" || fk == "tree.LeafEntry.IsUpdated" {
+							bad, pos = fk, in
+						}
+					}
+				}
+			}
+			if bad != "" {
+				r.Viol("NOT-ONLY-TOUCHED", core.Site(f, "reads %s", shortSrc(bad)), w.InstrPos(pos), "the validator looks at whether the value is new or updated: a value that becomes the ruling one because a higher-precedence intent was removed is neither, and is accepted unjudged")
+			}
+		}
+		r.Extra["validators_examined_for_touched_marks"] = n
+		r.OK("NOT-ONLY-TOUCHED", fmt.Sprintf("%d validate* methods examined", n), "", "")
+	}
+
 	// ---- RULING-NOT-DELETED
 	r.Rule("RULING-NOT-DELETED", 1, "the value the validators judge is one that remains: in LeafVariants.GetHighestPrecedence every non-nil entry returned on the onlyNewOrUpdated==false outcome is selected under a test of LeafEntry.GetDeleteFlag() (the flag is in the backward slice, data + control, of the returned value). Otherwise deleting the ruling intent lets the never-validated value of the intent that takes over through.")
 	if ghp := w.Func("pkg/tree", "LeafVariants", "GetHighestPrecedence"); ghp != nil {
